@@ -10,6 +10,7 @@ That `WF` holds after EVERY history and crash is decided by running the checker 
 of sampled histories (labelled PARTIAL): the block-level operations are not modelled.
 -/
 import GoNfsd.Model.Fsck
+import GoNfsd.Lemmas.FsckMeta
 
 namespace GoNfsd.Props.C04
 open GoNfsd.Model.Fsck GoNfsd.Gen.Consts GoNfsd.Gen.Super
@@ -268,5 +269,12 @@ theorem fsck_sound (img : Image) (h : fsckOk img = true) : WF img := by
     root_is_dir := (isDirInum_iff img ROOTINUM).1 hR
     dots := dots_sound img hD
     tree := reach_sound img hT }
+
+/-- The blocks the checker treats as metadata are exactly the blocks that formatting marks in the
+    format model (which the mkfs correspondence of C15 ties to the real `nfs.makeFs` on every
+    size of a dense range): the closed form is not an independent assumption. -/
+theorem metaBlock_is_format_model (sz b : Nat) (hacc : GoNfsd.Props.C15.accepts sz) (hb : b < padEnd sz) :
+    GoNfsd.Model.Mkfs.freshBlockBit sz b = metaBlock sz b :=
+  GoNfsd.Lemmas.FsckMeta.freshBlockBit_eq_metaBlock sz b hacc hb
 
 end GoNfsd.Props.C04
